@@ -199,6 +199,46 @@ theorem ret_step (hI : Inv cfg s) (h : step? cfg s l = some s') :
          · rw [set_other _ _ e]; exact hl u hm))
   | _ => unfold_step h <;> simp_all
 
+theorem callsW_step (hI : Inv cfg s) (h : step? cfg s l = some s') :
+    ∀ v, v ∈ s'.calls ↔ (s'.w v ≠ .idle ∧ s'.w v ≠ .start) := by
+  intro u
+  have h0 := hI.callsW u
+  cases l with
+  | mSpawn v =>
+    unfold_step h
+    rename_i todo hm hv
+    by_cases e : u = v
+    · subst e
+      have := ((hI.todo todo hm).2 u hv).2
+      simp_all
+    · rw [set_other _ _ e]; exact h0
+  | wBegin v =>
+    unfold_step h
+    by_cases e : u = v
+    · subst e; simp
+    · rw [set_other _ _ e]; simp [e, h0]
+  | wReturn v | wSend v | wExit v | wFail v =>
+    unfold_step h
+    all_goals (
+      by_cases e : u = v
+      · subst e; simp_all
+      · rw [set_other _ _ e]; exact h0)
+  | _ => unfold_step h <;> exact h0
+
+theorem callsNodup_step (hI : Inv cfg s) (h : step? cfg s l = some s') : s'.calls.Nodup := by
+  have h0 := hI.callsNodup
+  cases l with
+  | wBegin v =>
+    unfold_step h
+    rw [List.nodup_append]
+    refine ⟨h0, by simp, ?_⟩
+    intro a ha b hb
+    simp at hb; subst hb
+    intro e; subst e
+    have := (hI.callsW a).mp ha
+    simp_all
+  | _ => unfold_step h <;> exact h0
+
 theorem inv_step (hN : cfg.svcs.Nodup) (hI : Inv cfg s) (h : step? cfg s l = some s') : Inv cfg s' where
   wSvcs := wSvcs_step hI h
   cStart := cStart_step hI h
@@ -224,6 +264,8 @@ theorem inv_step (hN : cfg.svcs.Nodup) (hI : Inv cfg s) (h : step? cfg s l = som
   gone := gone_step hI h
   svcNone := svcNone_step hI h
   ret := ret_step hI h
+  callsNodup := callsNodup_step hI h
+  callsW := callsW_step hI h
 
 theorem inv_reach (hN : cfg.svcs.Nodup) (hR : Reach cfg s) : Inv cfg s := by
   induction hR with
